@@ -82,7 +82,15 @@ case "$ID" in
     C15_BASELINE="$B/c15_rel" C15_WORKERS="$W" exec "$B/rel/release/mc" C15 "$@" ;;
   C20)
     build pat cargo +nightly build --release --offline --features pattern
-    exec "$B/pat/release/mc" C20 "$@" ;;
+    "$B/pat/release/mc" C20 "$@"; rc=$?
+    if [ $rc -ge 128 ] && [ "${1:-}" != "--replay" ]; then
+      echo "NOTE: the release runner died with signal $((rc-128)); repeating the exploration with the bounds-checked build (pattern,index-positions,prohibit-unsafe)"
+      build patchk cargo +nightly build --release --offline --features pattern,index-positions,prohibit-unsafe
+      "$B/patchk/release/mc" C20 "$@"; rc2=$?
+      if [ $rc2 -eq 1 ]; then exit 1; fi
+      echo "MACHINERY: release runner died with signal $((rc-128)) and the bounds-checked runner exited $rc2"; exit 3
+    fi
+    exit $rc ;;
   C14)
     build u16dbg cargo build --profile dbg --offline --features utf16
     exec "$B/u16dbg/dbg/mc" C14 "$@" ;;
